@@ -8,7 +8,9 @@ use crate::range;
 use crate::bits;
 use crate::backend;
 use crate::chain;
+use crate::skew;
 use crate::common::*;
+use crate::model::Repr;
 
 #[derive(Clone, Debug, Serialize, Deserialize, PartialEq)]
 pub enum Trace {
@@ -17,6 +19,7 @@ pub enum Trace {
     Bits(bits::BitsTrace),
     Backend(backend::BackendTrace),
     Chain(chain::ChainTrace),
+    Skew(skew::SkewTrace),
 }
 
 pub struct Meta {
@@ -35,6 +38,7 @@ pub fn worlds_for(prop: &str) -> &'static [&'static str] {
         "C08" | "C18" => &["ans", "range", "bits"],
         "C09" => &["ans", "range", "ans", "range", "bits", "chain"],
         "C13" | "C14" => &["chain"],
+        "C05" => &["skew"],
         "C16" => &["bits"],
         "C17" => &["backend"],
         _ => &[],
@@ -50,6 +54,7 @@ pub fn generate(prop: &str, seed: u64, index: u64, thorough: bool) -> Trace {
         "bits" => Trace::Bits(bits::generate(seed, prop, thorough)),
         "backend" => Trace::Backend(backend::generate(seed, prop, thorough)),
         "chain" => Trace::Chain(chain::generate(seed, prop, thorough)),
+        "skew" => Trace::Skew(skew::generate(seed, prop, thorough)),
         w => panic!("harness: unknown world {}", w),
     }
 }
@@ -79,6 +84,7 @@ pub fn exec(t: &Trace, ctx: &mut Ctx) -> Result<(), Violation> {
         }
         Trace::Backend(t) => backend::exec(t, ctx),
         Trace::Chain(t) => chain::exec(t, ctx),
+        Trace::Skew(t) => skew::exec(t, ctx),
         Trace::Bits(t) => {
             if ctx.on("C08") {
                 let twin = {
@@ -128,6 +134,7 @@ pub fn ops_len(t: &Trace) -> usize {
         Trace::Bits(t) => t.ops.len(),
         Trace::Backend(t) => t.ops.len(),
         Trace::Chain(t) => t.steps.len(),
+        Trace::Skew(t) => t.symbols.len(),
     }
 }
 
@@ -158,12 +165,33 @@ pub fn without_ops(t: &Trace, from: usize, to: usize) -> Trace {
             t.steps.drain(from..to.min(t.steps.len()));
             Trace::Chain(t)
         }
+        Trace::Skew(t) => {
+            let mut t = t.clone();
+            t.symbols.drain(from..to.min(t.symbols.len()));
+            Trace::Skew(t)
+        }
     }
 }
 
 pub fn simplifications(t: &Trace) -> Vec<Trace> {
     let mut out = Vec::new();
     match t {
+        Trace::Skew(t) => {
+            for (a, b, c) in [(Repr::Plain, t.twin, t.consumer), (t.producer, Repr::Plain, t.consumer), (t.producer, t.twin, Repr::Plain)] {
+                if (a, b, c) != (t.producer, t.twin, t.consumer) {
+                    let mut x = t.clone();
+                    x.producer = a;
+                    x.twin = b;
+                    x.consumer = c;
+                    out.push(Trace::Skew(x));
+                }
+            }
+            if t.range {
+                let mut x = t.clone();
+                x.range = false;
+                out.push(Trace::Skew(x));
+            }
+        }
         Trace::Chain(t) => {
             if t.data.len() > 2 {
                 for cut in [t.data.len() / 2, 1] {
